@@ -1,22 +1,32 @@
 // Executor for C06: drives sqlc.CachedConn (over cache.New: one cacheNode, or a
-// cacheCluster dispatching by consistent hash) against two miniredis servers and
-// a harness-owned fake database.  Per operation it reports the returned class and
-// row, the number of database queries the operation ran, and the full contents of
-// the cache servers (value class + TTL) afterwards.
+// cacheCluster dispatching by consistent hash; or sqlc.NewNodeConn) against two
+// miniredis servers and a harness-owned fake database.  Per operation it reports the
+// returned class and row, the number of database queries the operation ran, every
+// primary key the user callbacks (keyer, primaryQuery) were handed - with its Go
+// dynamic type -, and the full contents of the cache servers (value class + TTL)
+// afterwards.
+//
+// Primary keys are int64 (any value, also beyond 2^53) or strings (any bytes); index
+// values and row contents are int64.  They travel as decimal / raw text in the case
+// file and in the observations, never through float64.
 //
 // Built with an overlay that ADDS core/stores/cache/zz_verif_c06.go (the cleaner's
 // timing wheel gets a ticker owned by this program); nothing is replaced.
 //
-// Case kinds: "" (sequential history) and "conc" (N concurrent readers of one
-// uncached key with a gated database query: load suppression).
+// Case kinds: "" (sequential history), "conc" (N concurrent readers of one uncached
+// primary key with a gated database query: load suppression) and "concqri" (the same
+// through QueryRowIndex: the readers that share the index load decode the primary key
+// from the shared result).
 package main
 
 import (
+	"bytes"
 	"context"
 	"database/sql"
 	"encoding/json"
 	"errors"
 	"fmt"
+	"regexp"
 	"sort"
 	"strconv"
 	"strings"
@@ -35,35 +45,43 @@ import (
 )
 
 type Case struct {
-	ID       int     `json:"id"`
-	Kind     string  `json:"kind"`
-	Nodes    int     `json:"nodes"`
-	Expiry   int64   `json:"expiry"`   // ns; <= 0: option not given
-	NfExpiry int64   `json:"nfexpiry"` // ns; <= 0: option not given
-	Rows     [][]int `json:"rows"`     // initial database rows [pk,u,v]
-	Ops      [][]any `json:"ops"`
-	Hole     string  `json:"hole"`    // cache.notFoundPlaceholder as extracted from the sources
-	Readers  int     `json:"readers"` // kind conc
-	Present  bool    `json:"present"` // kind conc
+	ID       int        `json:"id"`
+	Kind     string     `json:"kind"`
+	Nodes    int        `json:"nodes"`
+	Expiry   int64      `json:"expiry"`   // ns; <= 0: option not given
+	NfExpiry int64      `json:"nfexpiry"` // ns; <= 0: option not given
+	PkKind   string     `json:"pkkind"`   // int | str
+	Rows     [][]string `json:"rows"`     // initial database rows [pk,u,v] (texts)
+	Ops      [][]any    `json:"ops"`
+	Keys     []string   `json:"keys"`    // cache keys whose node is to be reported
+	Hole     string     `json:"hole"`    // cache.notFoundPlaceholder as extracted from the sources
+	RType    string     `json:"rtype"`   // node | cluster (redis.ClusterType: per-key DEL)
+	Conn     string     `json:"conn"`    // conf (sqlc.NewConn) | node (sqlc.NewNodeConn, 1 node)
+	Api      int        `json:"api"`     // 0: ...Ctx methods, 1: context-free wrappers, 2: alternating
+	Readers  int        `json:"readers"` // kind conc*
+	Present  bool       `json:"present"` // kind conc*
+	Pk       string     `json:"pk"`      // kind conc*: primary key of the row
 }
 
 type Entry struct {
 	K    string `json:"k"`
-	T    string `json:"t"` // row | pk | hole | raw
-	A    int    `json:"a"`
-	B    int    `json:"b"`
+	T    string `json:"t"`  // row | pk | hole | raw
+	Pk   string `json:"pk"` // t = pk: the primary key stored (text)
+	A    string `json:"a"`  // t = row: u
+	B    string `json:"b"`  // t = row: v
 	TTL  int64  `json:"ttl"` // ms; 0 = persistent
 	Node int    `json:"node"`
 }
 
 type OpObs struct {
-	R    string  `json:"r"` // ok | row | nf | dberr | cerr
-	Pk   int     `json:"pk"`
-	U    int     `json:"u"`
-	V    int     `json:"v"`
-	QI   int     `json:"qi"` // index queries run by this op
-	QP   int     `json:"qp"` // primary queries run by this op
-	Dump []Entry `json:"dump"`
+	R    string   `json:"r"` // ok | row | nf | dberr | cerr
+	Pk   string   `json:"pk"`
+	U    string   `json:"u"`
+	V    string   `json:"v"`
+	QI   int      `json:"qi"`   // index queries run by this op
+	QP   int      `json:"qp"`   // primary queries run by this op
+	Seen []string `json:"seen"` // "<Go type>|<fmt %v>" of every primary key handed to keyer / primaryQuery
+	Dump []Entry  `json:"dump"`
 }
 
 type Out struct {
@@ -76,26 +94,95 @@ type Out struct {
 
 type ConcObs struct {
 	Queries int      `json:"queries"`
+	QI      int      `json:"qi"`
+	QP      int      `json:"qp"`
 	Blocked int      `json:"blocked"` // readers parked in the barrier when the gate opened
 	Results []string `json:"results"` // per reader: "row:pk:u:v" | "nf" | "dberr" | "cerr"
 	MaxPar  int      `json:"maxpar"`  // max number of queries in flight at once
+	Seen    []string `json:"seen"`
 }
 
+// a database row; Pk is the text of the primary key (decimal for kind int)
 type Row struct {
-	Pk int `json:"pk"`
-	U  int `json:"u"`
-	V  int `json:"v"`
+	Pk string
+	U  int64
+	V  int64
+}
+
+// what the application unmarshals a row into
+type RowI struct {
+	Pk int64
+	U  int64
+	V  int64
+}
+
+type RowS struct {
+	Pk string
+	U  int64
+	V  int64
 }
 
 var errDB = errors.New("verif: database down")
 
+var pkKind = "int"
+
+func newTarget() any {
+	if pkKind == "str" {
+		return &RowS{}
+	}
+	return &RowI{}
+}
+
+func fill(v any, r Row) error {
+	switch t := v.(type) {
+	case *RowI:
+		n, err := strconv.ParseInt(r.Pk, 10, 64)
+		if err != nil {
+			return err
+		}
+		*t = RowI{n, r.U, r.V}
+	case *RowS:
+		*t = RowS{r.Pk, r.U, r.V}
+	default:
+		return fmt.Errorf("verif: unexpected target %T", v)
+	}
+	return nil
+}
+
+func extract(v any) Row {
+	switch t := v.(type) {
+	case *RowI:
+		return Row{strconv.FormatInt(t.Pk, 10), t.U, t.V}
+	case *RowS:
+		return *(*Row)(t)
+	}
+	return Row{}
+}
+
+func native(pk string) any {
+	if pkKind == "str" {
+		return pk
+	}
+	n, _ := strconv.ParseInt(pk, 10, 64)
+	return n
+}
+
+func valueOf(r Row) any {
+	if pkKind == "str" {
+		return RowS(r)
+	}
+	n, _ := strconv.ParseInt(r.Pk, 10, 64)
+	return RowI{n, r.U, r.V}
+}
+
 type fakeDB struct {
 	mid   int // >= 0: the next query first takes this cache node down (mid-operation outage)
 	mu    sync.Mutex
-	rows  map[int]Row
+	rows  map[string]Row
 	fault bool
 	qi    int
 	qp    int
+	seen  []string
 	gate  chan struct{} // conc: queries park here
 	inq   int32
 	maxq  int32
@@ -121,7 +208,7 @@ func (d *fakeDB) enter() {
 
 func (d *fakeDB) leave() { atomic.AddInt32(&d.inq, -1) }
 
-func (d *fakeDB) byPrimary(pk int, v any) error {
+func (d *fakeDB) byPrimary(pk string, known bool, v any) error {
 	d.mu.Lock()
 	d.qp++
 	d.mu.Unlock()
@@ -133,14 +220,13 @@ func (d *fakeDB) byPrimary(pk int, v any) error {
 		return errDB
 	}
 	r, ok := d.rows[pk]
-	if !ok {
+	if !ok || !known {
 		return sqlx.ErrNotFound
 	}
-	*(v.(*Row)) = r
-	return nil
+	return fill(v, r)
 }
 
-func (d *fakeDB) byIndex(u int, v any) (any, error) {
+func (d *fakeDB) byIndex(u int64, v any) (any, error) {
 	d.mu.Lock()
 	d.qi++
 	d.mu.Unlock()
@@ -153,15 +239,17 @@ func (d *fakeDB) byIndex(u int, v any) (any, error) {
 	}
 	for _, r := range d.rows {
 		if r.U == u {
-			*(v.(*Row)) = r
-			return r.Pk, nil
+			if err := fill(v, r); err != nil {
+				return nil, err
+			}
+			return native(r.Pk), nil
 		}
 	}
 	return nil, sqlx.ErrNotFound
 }
 
 // write: put (present) or delete; a second row with the same u violates the unique index
-func (d *fakeDB) write(pk int, present bool, u, v int) error {
+func (d *fakeDB) write(pk string, present bool, u, v int64) error {
 	d.mu.Lock()
 	defer d.mu.Unlock()
 	if d.fault {
@@ -180,6 +268,28 @@ func (d *fakeDB) write(pk int, present bool, u, v int) error {
 	return nil
 }
 
+// the primary key as the application sees it: the user callbacks format it with %v (as the
+// code generated by goctl does) and look the row up by that text, provided its type is one a
+// driver would bind as this table's key type.
+func (d *fakeDB) primary(p any) (text string, known bool) {
+	text = fmt.Sprint(p)
+	switch p.(type) {
+	case int, int8, int16, int32, int64, uint, uint8, uint16, uint32, uint64, json.Number:
+		known = pkKind == "int"
+	case string:
+		known = pkKind == "str"
+	}
+	d.mu.Lock()
+	d.seen = append(d.seen, fmt.Sprintf("%T|%s", p, text))
+	d.mu.Unlock()
+	return
+}
+
+func (d *fakeDB) keyer(primary any) string {
+	text, _ := d.primary(primary)
+	return "p" + text
+}
+
 type result struct{}
 
 func (result) LastInsertId() (int64, error) { return 0, nil }
@@ -191,14 +301,16 @@ func (t *ticker) Chan() <-chan time.Time { return t.c }
 func (t *ticker) Stop()                  {}
 
 var (
-	servers [2]*miniredis.Miniredis
-	padders [2]*redis.Redis
-	tk      = &ticker{c: make(chan time.Time)}
-	wheel   *collection.TimingWheel
-	faulted [2]bool
-	closed  [2]bool // connection loss (miniredis Close / Restart)
-	lostOps [2]int
-	hole    = "*"
+	servers  [2]*miniredis.Miniredis
+	padders  [2]*redis.Redis
+	cpadders [2]*redis.Redis
+	tk       = &ticker{c: make(chan time.Time)}
+	wheel    *collection.TimingWheel
+	faulted  [2]bool
+	closed   [2]bool // connection loss (miniredis Close / Restart)
+	lostOps  [2]int
+	hole     = "*"
+	rtype    = redis.NodeType
 )
 
 const sentinel = "verif-c06-sentinel"
@@ -223,6 +335,16 @@ func settle() bool {
 	return hx.Quiesce(busy, 5*time.Second)
 }
 
+func padder(n int) *redis.Redis {
+	if rtype == redis.ClusterType {
+		if cpadders[n] == nil {
+			cpadders[n] = redis.New(servers[n].Addr(), redis.Cluster())
+		}
+		return cpadders[n]
+	}
+	return padders[n]
+}
+
 // the redis client carries a circuit breaker (shared per address); keep it far
 // from tripping by following every operation run under an injected outage with
 // accepted commands (the outage is lifted for them and put back).
@@ -237,7 +359,7 @@ func pad() {
 		}
 		servers[n].SetError("")
 		for i := 0; i < 8; i++ {
-			padders[n].ExistsCtx(context.Background(), "verif-pad")
+			padder(n).ExistsCtx(context.Background(), "verif-pad")
 		}
 		servers[n].SetError("ERR verif outage")
 	}
@@ -247,18 +369,14 @@ func keyName(k any) string { return k.(string) }
 
 func num(v any) int { return int(v.(float64)) }
 
-func keyer(primary any) string {
-	switch x := primary.(type) {
-	case int:
-		return "p" + strconv.Itoa(x)
-	case int64:
-		return "p" + strconv.FormatInt(x, 10)
-	case float64:
-		return "p" + strconv.Itoa(int(x))
-	case json.Number:
-		return "p" + x.String()
+func str(v any) string { return v.(string) }
+
+func i64(v any) int64 {
+	n, err := strconv.ParseInt(v.(string), 10, 64)
+	if err != nil {
+		hx.Fatal("bad integer %q in case", v)
 	}
-	return fmt.Sprintf("p%v", primary)
+	return n
 }
 
 func classify(err error) string {
@@ -273,6 +391,49 @@ func classify(err error) string {
 	return "cerr"
 }
 
+var intLit = regexp.MustCompile(`^-?(0|[1-9][0-9]*)$`)
+
+// exact classification of a stored value (no float64 anywhere)
+func classifyValue(k, val string, e *Entry) {
+	e.T = "raw"
+	if val == hole {
+		e.T = "hole"
+		return
+	}
+	dec := json.NewDecoder(bytes.NewReader([]byte(val)))
+	dec.UseNumber()
+	switch {
+	case strings.HasPrefix(k, "p") && strings.HasPrefix(val, "{"):
+		dec.DisallowUnknownFields()
+		t := newTarget()
+		if dec.Decode(t) != nil || dec.More() {
+			return
+		}
+		r := extract(t)
+		if k != "p"+r.Pk {
+			return
+		}
+		e.T, e.A, e.B = "row", strconv.FormatInt(r.U, 10), strconv.FormatInt(r.V, 10)
+	case strings.HasPrefix(k, "u"):
+		var x any
+		if dec.Decode(&x) != nil || dec.More() {
+			return
+		}
+		switch p := x.(type) {
+		case json.Number:
+			if pkKind == "int" && intLit.MatchString(p.String()) {
+				if _, err := strconv.ParseInt(p.String(), 10, 64); err == nil {
+					e.T, e.Pk = "pk", p.String()
+				}
+			}
+		case string:
+			if pkKind == "str" {
+				e.T, e.Pk = "pk", p
+			}
+		}
+	}
+}
+
 func dump(nodes int) []Entry {
 	res := []Entry{}
 	for n := 0; n < nodes; n++ {
@@ -283,20 +444,10 @@ func dump(nodes int) []Entry {
 			if m.TTL(k) > 0 && e.TTL == 0 {
 				e.TTL = 1
 			}
-			var r Row
-			var f float64
-			switch {
-			case err != nil:
+			if err != nil {
 				e.T = "raw"
-			case val == hole:
-				e.T = "hole"
-			case strings.HasPrefix(val, "{") && json.Unmarshal([]byte(val), &r) == nil &&
-				k == "p"+strconv.Itoa(r.Pk):
-				e.T, e.A, e.B = "row", r.U, r.V
-			case json.Unmarshal([]byte(val), &f) == nil && f == float64(int(f)) && strings.HasPrefix(k, "u"):
-				e.T, e.A = "pk", int(f)
-			default:
-				e.T = "raw"
+			} else {
+				classifyValue(k, val, &e)
 			}
 			res = append(res, e)
 		}
@@ -305,20 +456,27 @@ func dump(nodes int) []Entry {
 	return res
 }
 
-func newConn(c Case, db *fakeDB) sqlc.CachedConn {
-	var conf cache.CacheConf
-	for n := 0; n < c.Nodes; n++ {
-		conf = append(conf, cache.NodeConf{
-			RedisConf: redis.RedisConf{Host: servers[n].Addr(), Type: redis.NodeType},
-			Weight:    100,
-		})
-	}
+func newConn(c Case) sqlc.CachedConn {
 	var opts []cache.Option
 	if c.Expiry > 0 {
 		opts = append(opts, cache.WithExpiry(time.Duration(c.Expiry)))
 	}
 	if c.NfExpiry > 0 {
 		opts = append(opts, cache.WithNotFoundExpiry(time.Duration(c.NfExpiry)))
+	}
+	if c.Conn == "node" && c.Nodes == 1 {
+		var ro []redis.Option
+		if rtype == redis.ClusterType {
+			ro = append(ro, redis.Cluster())
+		}
+		return sqlc.NewNodeConn(nil, redis.New(servers[0].Addr(), ro...), opts...)
+	}
+	var conf cache.CacheConf
+	for n := 0; n < c.Nodes; n++ {
+		conf = append(conf, cache.NodeConf{
+			RedisConf: redis.RedisConf{Host: servers[n].Addr(), Type: rtype},
+			Weight:    100,
+		})
 	}
 	return sqlc.NewConn(nil, conf, opts...)
 }
@@ -333,7 +491,7 @@ func reopen(n int) {
 	closed[n] = false
 	// stale pooled connections fail once and are retried by go-redis; then feed the breaker
 	for i := 0; i < 8*lostOps[n]+24; i++ {
-		padders[n].ExistsCtx(context.Background(), "verif-pad")
+		padder(n).ExistsCtx(context.Background(), "verif-pad")
 	}
 	lostOps[n] = 0
 }
@@ -352,29 +510,28 @@ func reset() {
 var nodeCache = map[string]int{}
 
 // which server a key lives on (the consistent hash is C15's; here it is observed)
-func probe(cc sqlc.CachedConn, nodes int) map[string]int {
+func probe(cc sqlc.CachedConn, nodes int, keys []string) map[string]int {
 	res := map[string]int{}
-	for _, pre := range []string{"p", "u"} {
-		for i := 0; i < 12; i++ {
-			k := pre + strconv.Itoa(i)
-			if nodes == 1 {
-				res[k] = 0
-				continue
-			}
-			if n, ok := nodeCache[k]; ok {
+	wrote := false
+	for _, k := range keys {
+		if nodes == 1 {
+			res[k] = 0
+			continue
+		}
+		if n, ok := nodeCache[k]; ok {
+			res[k] = n
+			continue
+		}
+		cc.SetCacheWithExpire(k, 1, time.Hour)
+		wrote = true
+		for n := 0; n < nodes; n++ {
+			if servers[n].Exists(k) {
 				res[k] = n
-				continue
-			}
-			cc.SetCacheWithExpire(k, 1, time.Hour)
-			for n := 0; n < nodes; n++ {
-				if servers[n].Exists(k) {
-					res[k] = n
-					nodeCache[k] = n
-				}
+				nodeCache[k] = n
 			}
 		}
 	}
-	if nodes > 1 {
+	if wrote {
 		for n := 0; n < 2; n++ {
 			servers[n].FlushAll()
 		}
@@ -390,26 +547,39 @@ func keysOf(v any) []string {
 	return ks
 }
 
-func runSeq(c Case) Out {
-	out := Out{ID: c.ID}
-	reset()
-	db := &fakeDB{rows: map[int]Row{}, mid: -1}
+func setup(c Case) {
+	pkKind = "int"
+	if c.PkKind == "str" {
+		pkKind = "str"
+	}
+	rtype = redis.NodeType
+	if c.RType == "cluster" {
+		rtype = redis.ClusterType
+	}
 	if c.Hole != "" {
 		hole = c.Hole
 	}
+}
+
+func runSeq(c Case) Out {
+	out := Out{ID: c.ID}
+	setup(c)
+	reset()
+	db := &fakeDB{rows: map[string]Row{}, mid: -1}
 	for _, r := range c.Rows {
-		db.rows[r[0]] = Row{r[0], r[1], r[2]}
+		db.rows[r[0]] = Row{r[0], i64(r[1]), i64(r[2])}
 	}
-	cc := newConn(c, db)
-	out.NodeOf = probe(cc, c.Nodes)
+	cc := newConn(c)
+	out.NodeOf = probe(cc, c.Nodes, c.Keys)
 	ctx := context.Background()
 	delFailed := false
-	for _, op := range c.Ops {
-		db.qi, db.qp = 0, 0
+	for i, op := range c.Ops {
+		db.qi, db.qp, db.seen = 0, 0, nil
 		o := OpObs{}
-		var row Row
+		row := newTarget()
 		var err error
 		isRead := false
+		plain := c.Api == 1 || (c.Api == 2 && i%2 == 0)
 		kind := op[0].(string)
 		if kind == "takemid" || kind == "qrimid" {
 			db.mid = num(op[2])
@@ -417,53 +587,97 @@ func runSeq(c Case) Out {
 		}
 		switch kind {
 		case "take":
-			p := num(op[1])
+			p := str(op[1])
 			isRead = true
-			err = cc.QueryRowCtx(ctx, &row, "p"+strconv.Itoa(p), func(ctx context.Context, conn sqlx.SqlConn, v any) error {
-				return db.byPrimary(p, v)
-			})
-		case "qri":
-			u := num(op[1])
-			isRead = true
-			err = cc.QueryRowIndexCtx(ctx, &row, "u"+strconv.Itoa(u), keyer,
-				func(ctx context.Context, conn sqlx.SqlConn, v any) (any, error) {
-					return db.byIndex(u, v)
-				},
-				func(ctx context.Context, conn sqlx.SqlConn, v, primary any) error {
-					pk, e := strconv.Atoi(keyer(primary)[1:])
-					if e != nil {
-						return e
-					}
-					return db.byPrimary(pk, v)
+			if plain {
+				err = cc.QueryRow(row, "p"+p, func(conn sqlx.SqlConn, v any) error {
+					return db.byPrimary(p, true, v)
 				})
+			} else {
+				err = cc.QueryRowCtx(ctx, row, "p"+p, func(ctx context.Context, conn sqlx.SqlConn, v any) error {
+					return db.byPrimary(p, true, v)
+				})
+			}
+		case "qri":
+			u := i64(op[1])
+			isRead = true
+			key := "u" + strconv.FormatInt(u, 10)
+			if plain {
+				err = cc.QueryRowIndex(row, key, db.keyer,
+					func(conn sqlx.SqlConn, v any) (any, error) { return db.byIndex(u, v) },
+					func(conn sqlx.SqlConn, v, primary any) error {
+						text, known := db.primary(primary)
+						return db.byPrimary(text, known, v)
+					})
+			} else {
+				err = cc.QueryRowIndexCtx(ctx, row, key, db.keyer,
+					func(ctx context.Context, conn sqlx.SqlConn, v any) (any, error) { return db.byIndex(u, v) },
+					func(ctx context.Context, conn sqlx.SqlConn, v, primary any) error {
+						text, known := db.primary(primary)
+						return db.byPrimary(text, known, v)
+					})
+			}
 		case "get":
 			isRead = true
-			err = cc.GetCacheCtx(ctx, "p"+strconv.Itoa(num(op[1])), &row)
+			if plain {
+				err = cc.GetCache("p"+str(op[1]), row)
+			} else {
+				err = cc.GetCacheCtx(ctx, "p"+str(op[1]), row)
+			}
 		case "exec":
-			p := num(op[1])
+			p := str(op[1])
 			present := op[2].(string) == "put"
-			var u, v int
+			var u, v int64
 			var keys []string
 			if present {
-				u, v, keys = num(op[3]), num(op[4]), keysOf(op[5])
+				u, v, keys = i64(op[3]), i64(op[4]), keysOf(op[5])
 			} else {
 				keys = keysOf(op[3])
 			}
-			_, err = cc.ExecCtx(ctx, func(ctx context.Context, conn sqlx.SqlConn) (sql.Result, error) {
-				if e := db.write(p, present, u, v); e != nil {
-					return nil, e
-				}
-				return result{}, nil
-			}, keys...)
+			if plain {
+				_, err = cc.Exec(func(conn sqlx.SqlConn) (sql.Result, error) {
+					if e := db.write(p, present, u, v); e != nil {
+						return nil, e
+					}
+					return result{}, nil
+				}, keys...)
+			} else {
+				_, err = cc.ExecCtx(ctx, func(ctx context.Context, conn sqlx.SqlConn) (sql.Result, error) {
+					if e := db.write(p, present, u, v); e != nil {
+						return nil, e
+					}
+					return result{}, nil
+				}, keys...)
+			}
 		case "set":
-			p := num(op[1])
-			err = cc.SetCacheCtx(ctx, "p"+strconv.Itoa(p), Row{p, num(op[2]), num(op[3])})
+			p := str(op[1])
+			val := valueOf(Row{p, i64(op[2]), i64(op[3])})
+			if plain {
+				err = cc.SetCache("p"+p, val)
+			} else {
+				err = cc.SetCacheCtx(ctx, "p"+p, val)
+			}
 		case "setex":
-			p := num(op[1])
-			err = cc.SetCacheWithExpireCtx(ctx, "p"+strconv.Itoa(p), Row{p, num(op[2]), num(op[3])},
-				time.Duration(int64(op[4].(float64))))
+			p := str(op[1])
+			val := valueOf(Row{p, i64(op[2]), i64(op[3])})
+			d := time.Duration(int64(op[4].(float64)))
+			if plain {
+				err = cc.SetCacheWithExpire("p"+p, val, d)
+			} else {
+				err = cc.SetCacheWithExpireCtx(ctx, "p"+p, val, d)
+			}
 		case "del":
-			err = cc.DelCacheCtx(ctx, keysOf(op[1])...)
+			if plain {
+				err = cc.DelCache(keysOf(op[1])...)
+			} else {
+				err = cc.DelCacheCtx(ctx, keysOf(op[1])...)
+			}
+		case "poke":
+			// the store is written behind the cache's back with something that is not a row
+			k := str(op[1])
+			n := out.NodeOf[k]
+			servers[n].Set(k, str(op[2]))
+			servers[n].SetTTL(k, time.Duration(num(op[3]))*time.Second)
 		case "adv":
 			for n := 0; n < 2; n++ {
 				servers[n].FastForward(time.Duration(num(op[1])) * time.Millisecond)
@@ -518,25 +732,33 @@ func runSeq(c Case) Out {
 		pad()
 		o.R = classify(err)
 		if isRead && err == nil {
-			o.R, o.Pk, o.U, o.V = "row", row.Pk, row.U, row.V
+			r := extract(row)
+			o.R, o.Pk, o.U, o.V = "row", r.Pk, strconv.FormatInt(r.U, 10), strconv.FormatInt(r.V, 10)
 		}
 		o.QI, o.QP = db.qi, db.qp
+		o.Seen = append([]string{}, db.seen...)
 		o.Dump = dump(c.Nodes)
 		out.Obs = append(out.Obs, o)
 	}
 	return out
 }
 
-// load suppression: `readers` goroutines Take the same uncached key; the database
-// query parks on a gate until every other reader is parked inside the barrier.
+// load suppression: `readers` goroutines read the same uncached key (kind conc: QueryRow on
+// the primary key; kind concqri: QueryRowIndex on the index key); the database query parks on
+// a gate until every other reader is parked inside the barrier.
 func runConc(c Case) Out {
 	out := Out{ID: c.ID}
+	setup(c)
 	reset()
-	db := &fakeDB{rows: map[int]Row{}, gate: make(chan struct{}), mid: -1}
-	if c.Present {
-		db.rows[1] = Row{1, 7, 42}
+	db := &fakeDB{rows: map[string]Row{}, gate: make(chan struct{}), mid: -1}
+	pk := c.Pk
+	if pk == "" {
+		pk = "1"
 	}
-	cc := newConn(c, db)
+	if c.Present {
+		db.rows[pk] = Row{pk, 7, 42}
+	}
+	cc := newConn(c)
 	ctx := context.Background()
 	res := make([]string, c.Readers)
 	var wg sync.WaitGroup
@@ -544,12 +766,23 @@ func runConc(c Case) Out {
 		wg.Add(1)
 		go func(i int) {
 			defer wg.Done()
-			var row Row
-			err := cc.QueryRowCtx(ctx, &row, "p1", func(ctx context.Context, conn sqlx.SqlConn, v any) error {
-				return db.byPrimary(1, v)
-			})
+			row := newTarget()
+			var err error
+			if c.Kind == "concqri" {
+				err = cc.QueryRowIndexCtx(ctx, row, "u7", db.keyer,
+					func(ctx context.Context, conn sqlx.SqlConn, v any) (any, error) { return db.byIndex(7, v) },
+					func(ctx context.Context, conn sqlx.SqlConn, v, primary any) error {
+						text, known := db.primary(primary)
+						return db.byPrimary(text, known, v)
+					})
+			} else {
+				err = cc.QueryRowCtx(ctx, row, "p"+pk, func(ctx context.Context, conn sqlx.SqlConn, v any) error {
+					return db.byPrimary(pk, true, v)
+				})
+			}
 			if err == nil {
-				res[i] = fmt.Sprintf("row:%d:%d:%d", row.Pk, row.U, row.V)
+				r := extract(row)
+				res[i] = fmt.Sprintf("row:%s:%d:%d", r.Pk, r.U, r.V)
 			} else {
 				res[i] = classify(err)
 			}
@@ -586,7 +819,8 @@ func runConc(c Case) Out {
 	}
 	close(db.gate)
 	wg.Wait()
-	out.Conc = &ConcObs{Queries: db.qp, Blocked: b, Results: res, MaxPar: int(db.maxq)}
+	out.Conc = &ConcObs{Queries: db.qp + db.qi, QI: db.qi, QP: db.qp, Blocked: b, Results: res,
+		MaxPar: int(db.maxq), Seen: db.seen}
 	return out
 }
 
@@ -613,7 +847,7 @@ func main() {
 		if c.Nodes < 1 {
 			c.Nodes = 1
 		}
-		if c.Kind == "conc" {
+		if c.Kind == "conc" || c.Kind == "concqri" {
 			w.Put(runConc(c))
 		} else {
 			w.Put(runSeq(c))
